@@ -80,3 +80,78 @@ def obligations(pid):
         else:
             obs.extend(r["obligations"])
     return obs, crashes
+
+
+# ---------------------------------------------------------------------------------------------
+# S8e: CodeBuilder.__get_field_alias on the real method, enumerated (independent of how the function is written;
+# S8 in s3resolve.py is the symbolic contract on its AST and goes `undecided` when the function is restructured)
+# ---------------------------------------------------------------------------------------------
+def alias_obligations(pid):
+    """alias(field) = metadata['alias'] if that is not None, else the name of an Alias among the Annotated metadata (any one of
+    several), else Config.aliases.get(name), else None.  The function reads nothing else: the family below is every combination of
+    {no 'alias' key, key holding None (what field_options() writes), key holding a string, key holding ''} x {plain type, one Alias,
+    other metadata + two Aliases} x {Config.aliases without / with the field}."""
+    import typing
+
+    import typing_extensions
+    from mashumaro.config import BaseConfig
+    from mashumaro.core.meta.code.builder import CodeBuilder
+    from mashumaro.types import Alias
+
+    fn = getattr(CodeBuilder, "_CodeBuilder__get_field_alias", None)
+    if fn is None:
+        return [dict(id=f"{pid}.S8e[__get_field_alias]/enumerated", status="error", detail="CodeBuilder.__get_field_alias not found")]
+
+    import inspect
+
+    is_static = isinstance(inspect.getattr_static(CodeBuilder, "_CodeBuilder__get_field_alias"), staticmethod)
+
+    class _B:  # (if it is an instance method) it reads nothing from self
+        pass
+
+    metas = {"nokey": {}, "none": {"alias": None, "serialize": None}, "str": {"alias": "m"}, "empty": {"alias": ""}}
+    types_ = {"plain": (int, []), "one": (typing_extensions.Annotated[int, Alias("a")], ["a"]),
+              "two": (typing_extensions.Annotated[int, "x", Alias("a1"), Alias("a2")], ["a1", "a2"])}
+    cfgs = {"nocfg": type("C0", (BaseConfig,), {"aliases": {}}), "cfg": type("C1", (BaseConfig,), {"aliases": {"f": "c"}})}
+    probs, n = [], 0
+    for mk, md in metas.items():
+        for tk, (ft, anns) in types_.items():
+            for ck, cfg in cfgs.items():
+                n += 1
+                try:
+                    got = fn("f", ft, md, cfg) if is_static else fn(_B(), "f", ft, md, cfg)
+                except Exception as e:  # noqa
+                    probs.append(f"[{mk}/{tk}/{ck}] raised {type(e).__name__}: {e}")
+                    continue
+                if md.get("alias") is not None:
+                    ok = got == md["alias"]
+                    want = repr(md["alias"])
+                elif anns:
+                    ok = got in anns
+                    want = f"one of {anns}"
+                else:
+                    ok = got == cfg.aliases.get("f")
+                    want = repr(cfg.aliases.get("f"))
+                if not ok:
+                    probs.append(f"[metadata {md!r}, {tk} Alias annotation(s), Config.aliases {cfg.aliases!r}] -> {got!r}, expected {want}")
+    w = None
+    if probs:
+        src = ("from dataclasses import dataclass, field\nfrom typing_extensions import Annotated\nfrom mashumaro import DataClassDictMixin, field_options\nfrom mashumaro.types import Alias\n"
+               "@dataclass\nclass K(DataClassDictMixin):\n    x: Annotated[int, Alias('a')] = field(metadata=field_options(serialize=str))\n")
+        try:
+            from . import build
+
+            mod, _ = build.build_module(src)
+            try:
+                try:
+                    got = repr(mod.K.from_dict({"a": 1}))
+                except Exception as e:  # noqa
+                    got = f"{type(e).__name__}: {e}"
+                if got != "K(x=1)":
+                    w = {"confirmed": True, "source": src, "input": "K.from_dict({'a': 1})", "got": got[:200], "expected": "K(x=1)", "why": probs[0]}
+            finally:
+                build.drop_module(mod)
+        except Exception:  # noqa
+            w = None
+    return [dict(id=f"{pid}.S8e[__get_field_alias]/enumerated", status="proved" if not probs else "refuted", unit=f"CodeBuilder.__get_field_alias on {n} argument shapes",
+                 backend="enumeration", detail="; ".join(probs)[:600], witness=w)]
